@@ -51,7 +51,15 @@ static double mabs(double v) { return v < 0 ? -v : v; }
 static bool close(ComplexType a, ComplexType b) { return mabs(a.real() - b.real()) <= 1e-9 * (1 + mabs(b.real())) && mabs(a.imag() - b.imag()) <= 1e-9 * (1 + mabs(b.imag())); }
 
 static int ok_rank[8];
+#ifndef VANISH
+#define VANISH 0
+#endif
+#if VANISH
+// (0,0,1,1) has no contributing block sequence at all ("vanishing" component: no parts)
+static const IndexCombination4 COMPS[3] = {IndexCombination4(0, 0, 1, 1), IndexCombination4(0, 1, 0, 1), IndexCombination4(1, 1, 1, 1)};
+#else
 static const IndexCombination4 COMPS[3] = {IndexCombination4(0, 0, 0, 0), IndexCombination4(0, 1, 0, 1), IndexCombination4(1, 1, 1, 1)};
+#endif
 
 static void rank_main(long r) {
     boost::mpi::communicator world;
